@@ -109,6 +109,11 @@ func (p *AV1Payloader) Payload(mtu uint16, payload []byte) (payloads [][]byte) {
 				// the current OBU opens the new packet: its ids are the packet's ids
 				currentPacketOBUHeader = obuHeader.ExtensionHeader
 			}
+		} else if needNewPacket {
+			// nothing is pending (the previous OBU was not transmitted):
+			// the request for a new packet must not be lost
+			startWithNewPacket = true
+			currentPacketOBUHeader = obuHeader.ExtensionHeader
 		}
 
 		// The temporal delimiter OBU, if present, SHOULD be removed when transmitting,
